@@ -1306,9 +1306,9 @@ def _d6_field_loops(mod, fn, depth: int = 0):
     return []
 
 
-def _d6_loop(g, head):
+def _d6_loop(g, head, loop_stmt=None, collect=None):
     body_stmts = set()
-    for st in ast.walk(head.stmt):
+    for st in ast.walk(loop_stmt if loop_stmt is not None else head.stmt):
         body_stmts.add(id(st))
     body_nodes = [nd for nd in g.nodes if nd.stmt is not None and id(nd.stmt) in body_stmts and nd.id != head.id and nd.kind in ("stmt", "test", "loop")]
     assigns: Dict[str, Set[int]] = {}
@@ -1327,7 +1327,7 @@ def _d6_loop(g, head):
             for x in ast.walk(st.target):
                 if isinstance(x, ast.Name):
                     assigns.setdefault(x.id, set()).add(nd.id)
-    loop_targets = {x.id for x in ast.walk(head.stmt.target) if isinstance(x, ast.Name)}
+    loop_targets = {x.id for x in ast.walk(head.stmt.target) if isinstance(x, ast.Name)} if isinstance(head.stmt, ast.For) else set()
     carried = None
     n_reads = 0
     for nd in body_nodes:
@@ -1350,6 +1350,8 @@ def _d6_loop(g, head):
             if not g.must_pass(head.id, nd.id, through, labels=normal_edge):
                 # a statement that assigns v and reads it only on its right-hand side after assigning is still a read-before-write: keep it
                 carried = (v, nd)
+                if collect is not None:
+                    collect.append((v, nd))
     return carried, n_reads
 
 
